@@ -69,3 +69,19 @@ Proof.
   destruct (mx <? Z.of_nat (length log')); [|reflexivity].
   apply neg_slice_pos. apply Z.leb_le. exact A.
 Qed.
+
+(* ---- delete_snapshot *)
+Lemma remove_first_index id l :
+  remove_first id l = option_map (fun i => py_del_at i l) (py_index_where (fun s => sid s =? id) l).
+Proof.
+  induction l as [|s l IH]; [reflexivity|]. simpl. destruct (sid s =? id); [reflexivity|].
+  rewrite IH. destruct (py_index_where (fun s0 => sid s0 =? id) l); reflexivity.
+Qed.
+
+Lemma gen_delete_snapshot_agrees m id : gen_delete_snapshot m id = PyOk (delete_snapshot m id).
+Proof.
+  unfold gen_delete_snapshot, delete_snapshot. cbv zeta. rewrite remove_first_index.
+  destruct (py_index_where (fun snapshot => sid snapshot =? id) (snaps m)) as [i|]; [|reflexivity].
+  cbn [option_map]. destruct (opt_eqb (cur m) (Some id)); [|reflexivity].
+  rewrite gen_most_recent_agrees. reflexivity.
+Qed.
